@@ -425,7 +425,9 @@ def gen_literal(r):
                 # unbraced form reads every following hex digit: follow it by a non-hex character
                 out_src.append("\\u" + "%04x" % cp + "~"); out_val.append(chr(cp) + "~")
             else:
-                c = r.choice(["a", "Z", " ", "é", "\u4e2d", "🐉", "{", "}", "#", "0", "x", "u", "\"" if delim == "'" else "'"])
+                # (raw line breaks and tabs are ordinary characters of a literal: CR, LF and CR LF stay what they are)
+                c = r.choice(["a", "Z", " ", "é", "\u4e2d", "🐉", "{", "}", "#", "0", "x", "u", "\"" if delim == "'" else "'",
+                              "\n", "\r", "\r\n", "\t", "\n\r"])
                 out_src.append(c); out_val.append(c)
         body = "".join(out_src)
         val = "".join(out_val)
